@@ -153,6 +153,10 @@ func (s *ServerQUIC) Start(ctx context.Context) (err error) {
 		return ErrServerAlreadyStarted
 	}
 
+	// Shutdown releases the worker pool, so reopen it in case the server is
+	// started again.  This does nothing if the pool is open.
+	s.pool.Reboot()
+
 	log.Info("[%s]: Starting the server", s.name)
 
 	ctx = ContextWithServerInfo(ctx, &ServerInfo{
